@@ -15,7 +15,7 @@ callable; `glob_param is None` selects the three-argument call, EVERY other valu
 matrix (in place, loop form, with `findStopsGlobal`'s `break`), `C + C.T`, degenerate track sizes and the exceptions.
 `findStopsGlobal` is modelled from ITS arguments (`findStopsGlobalPy`, last section): the track it works on (`downsampling > 1`:
 the resampled copy), the planimetric `distance2DTo` and the elapsed time read from the observations `(x, y, z, t)`, the three
-tests, the final filter and the identifiers of the stops. The dispatcher `findStops(…, MODE_STOPS_GLOBAL, verbose)` is `findStopsPy`. `minCircle` (modelled on its own in
+tests, the final filter and the identifiers of the stops. The dispatcher `findStops(…, MODE_STOPS_GLOBAL, verbose)` is `findStopsPy` (`verbose` goes by keyword; `findStopsPyOld` is the pre-fix positional call). `minCircle` (modelled on its own in
 `Model/MinCircle.lean`), the temporal resampling `track ** n`, the geometry of
 `findStopsGlobalForRTK` and the built-in cost functions of `simplify` enter as parameters.
 
@@ -413,11 +413,22 @@ def findStopsGlobalPy (zero one : α) (sq ofNat : Nat → α) (track resampled :
 /-- a Python `bool` used as a number: `True` is `1`, `False` is `0` -/
 def boolNum (zero one : α) (b : Bool) : α := if b then one else zero
 
+/-- the `downsampling` that `findStops` hands to `findStopsGlobal`: the call is
+`findStopsGlobal(track, spatial, temporal, verbose=verbose)` — the flag goes by keyword, `downsampling` keeps its default `1`
+whatever `verbose` is -/
+def dispatchDs (one : α) (_verbose : Bool) : α := one
+
 /-- `findStops(track, spatial, temporal, mode, verbose=True)` for `mode == MODE_STOPS_GLOBAL`: the dispatcher calls
-`findStopsGlobal(track, spatial, temporal, verbose)` — positionally, and the fourth parameter of `findStopsGlobal` is
-`downsampling`: the caller's `verbose` is what `findStopsGlobal` receives as `downsampling` (its own `verbose` keeps the
-default). -/
+`findStopsGlobal(track, spatial, temporal, verbose=verbose)`; `verbose` only switches the progress output, which is not
+modelled: the result is that of `findStopsGlobal(track, spatial, temporal)` (`downsampling = 1`). -/
 def findStopsPy (zero one : α) (sq ofNat : Nat → α) (track resampled : List (Fix α))
+    (circ2 circA : Nat → Nat → Option α) (spatial temporal : α) (verbose : Bool) : Except Err (List (α × α × Nat)) :=
+  findStopsGlobalPy zero one sq ofNat track resampled circ2 circA spatial temporal (dispatchDs one verbose)
+
+/-- the dispatcher BEFORE the repair (documented pre-fix variant, no longer a model of any code): the call was
+`findStopsGlobal(track, spatial, temporal, verbose)` — positionally, and the fourth parameter of `findStopsGlobal` is
+`downsampling`: the caller's `verbose` was what `findStopsGlobal` received as `downsampling` (`boolNum`). -/
+def findStopsPyOld (zero one : α) (sq ofNat : Nat → α) (track resampled : List (Fix α))
     (circ2 circA : Nat → Nat → Option α) (spatial temporal : α) (verbose : Bool) : Except Err (List (α × α × Nat)) :=
   findStopsGlobalPy zero one sq ofNat track resampled circ2 circA spatial temporal (boolNum zero one verbose)
 end track
